@@ -61,6 +61,7 @@ type Conn struct {
 	gotConnect  bool
 	brokerGone  bool // broker closed its side / discarded the connection
 	connecting  bool // a Connect on this transport is in progress (harness view)
+	activeCB    bool // the Active state callback is running (Connect still holds its lock)
 	fragIdx     int
 	busyUntil   int64      // b2c stream: fake time (ns) until which earlier packets occupy the stream
 	sendMu      sync.Mutex // engine R: one packet's fragments are contiguous
@@ -557,11 +558,22 @@ func (s *Sim) newBase(c *Conn) *mqtt.BaseClient {
 	k := c.k
 	cli.ConnState = func(st mqtt.ConnState, err error) {
 		r := Rec{Kind: "state", Conn: k, S: st.String()}
-		if st != mqtt.StateNew {
+		if st == mqtt.StateActive {
+			// Connect has not returned yet and holds its lock while this runs
 			c.mu.Lock()
-			c.connecting = false
+			c.activeCB = true
 			c.mu.Unlock()
 		}
+		defer func() {
+			if st != mqtt.StateNew {
+				c.mu.Lock()
+				c.connecting = false
+				if st == mqtt.StateActive {
+					c.activeCB = false
+				}
+				c.mu.Unlock()
+			}
+		}()
 		if err != nil {
 			r.Err = err.Error()
 			r.Cls = classify(err)
@@ -573,6 +585,9 @@ func (s *Sim) newBase(c *Conn) *mqtt.BaseClient {
 			r.B = err == nil
 		}
 		s.log(r)
+		if st == mqtt.StateActive {
+			s.yield("app.connStateActive") // a slow application callback (Connect has not returned yet)
+		}
 	}
 	s.mu.Lock()
 	for len(s.bases) < k {
